@@ -29,6 +29,12 @@ pub enum Via {
     Connector,
     /// ConnectorService over a transport that ignores the URI (always reaches the server)
     ConnectorFixed,
+    /// ConnectionPoolService::new(transport, protocol, RequestExecutor, config) - the pooled service
+    /// on its own, without the checking layers the Client builder puts below it (what
+    /// ConnectionPoolService::new_tcp_http() builds)
+    PoolBare,
+    /// ConnectorLayer + RequestExecutor only, over the URI-agnostic transport
+    ConnectorBare,
 }
 
 #[derive(Clone, Debug, Serialize, Deserialize)]
@@ -116,6 +122,31 @@ fn connector_service(net: &Network, tls: bool, fixed: Option<String>) -> ExecSvc
     svc
 }
 
+fn bare_connector_service(net: &Network, tls: bool, fixed: Option<String>) -> ExecSvc {
+    use hyperdriver::client::conn::connector::ConnectorLayer;
+    use hyperdriver::client::conn::protocol::auto::HttpConnectionBuilder;
+    use hyperdriver::client::conn::transport::TransportExt;
+    use hyperdriver::service::{IncomingResponseLayer, RequestExecutor};
+    let mut t = net.transport();
+    t.fixed = fixed;
+    let transport = if tls { t.with_tls(tlsfix::client_config(&["h2", "http/1.1"])) } else { t.without_tls() };
+    tower::ServiceBuilder::new()
+        .layer(hyperdriver::service::SharedService::layer())
+        .layer(IncomingResponseLayer::new())
+        .layer(ConnectorLayer::new(transport, HttpConnectionBuilder::<ChunkBody>::default()))
+        .service(RequestExecutor::new())
+}
+
+fn bare_pool_service(net: &Network, tls: bool) -> ExecSvc {
+    use hyperdriver::client::conn::protocol::auto::HttpConnectionBuilder;
+    use hyperdriver::client::conn::transport::TransportExt;
+    use hyperdriver::service::{IncomingResponseLayer, RequestExecutor};
+    let t = net.transport();
+    let transport = if tls { t.with_tls(tlsfix::client_config(&["h2", "http/1.1"])) } else { t.without_tls() };
+    let pooled: hyperdriver::client::ConnectionPoolService<_, _, _, ChunkBody, hyperdriver::client::pool::UriKey> = hyperdriver::client::ConnectionPoolService::new(transport, HttpConnectionBuilder::<ChunkBody>::default(), RequestExecutor::new(), hyperdriver::client::PoolConfig::default());
+    tower::ServiceBuilder::new().layer(hyperdriver::service::SharedService::layer()).layer(IncomingResponseLayer::new()).service(pooled)
+}
+
 impl Scenario for GrammarSim {
     type Case = GrammarCase;
 
@@ -136,13 +167,13 @@ impl Scenario for GrammarSim {
     }
 
     fn num_cases(&self, tier: Tier) -> (u64, u64) {
-        let e = (VERSIONS.len() * METHODS.len() * URIS.len() * 4 * 2) as u64;
+        let e = (VERSIONS.len() * METHODS.len() * URIS.len() * 6 * 2) as u64;
         (e, if tier == Tier::Quick { 2000 } else { 200_000 })
     }
 
     fn case(&self, index: u64, seed: u64, _tier: Tier) -> GrammarCase {
-        let total = (VERSIONS.len() * METHODS.len() * URIS.len() * 4 * 2) as u64;
-        let vias = [Via::Client, Via::ClientNoPool, Via::Connector, Via::ConnectorFixed];
+        let total = (VERSIONS.len() * METHODS.len() * URIS.len() * 6 * 2) as u64;
+        let vias = [Via::Client, Via::ClientNoPool, Via::Connector, Via::ConnectorFixed, Via::PoolBare, Via::ConnectorBare];
         if index < total {
             let mut i = index;
             let v = (i % VERSIONS.len() as u64) as usize;
@@ -151,16 +182,33 @@ impl Scenario for GrammarSim {
             i /= METHODS.len() as u64;
             let u = (i % URIS.len() as u64) as usize;
             i /= URIS.len() as u64;
-            let via = vias[(i % 4) as usize];
-            i /= 4;
+            let via = vias[(i % 6) as usize];
+            i /= 6;
             return GrammarCase { seed: 5, via, tls: i % 2 == 1, version: VERSIONS[v].into(), method: METHODS[m].into(), uri: URIS[u].into(), headers: vec![], body_len: 0 };
         }
         let mut r = Rng::keyed(seed, "grammar");
         let mut headers = vec![];
         // (headers that contradict the actual body framing - a content-length that lies - are a
         // caller error that makes the *server* wait, not a library fault, and are left out)
-        for (k, v) in [("host", "x.example"), ("connection", "close"), ("upgrade", "h2c"), ("te", "trailers"), ("expect", "100-continue"), ("accept", "*/*")] {
-            if r.chance(1, 5) {
+        // values with bytes >= 0x80 are legal HeaderValues (obs-text); they are kept in the case as
+        // Latin-1 characters
+        for (k, v) in [
+            ("host", "x.example"),
+            ("connection", "close"),
+            ("upgrade", "h2c"),
+            ("te", "trailers"),
+            ("expect", "100-continue"),
+            ("accept", "*/*"),
+            ("connection", "close, caf\u{e9}"),
+            ("connection", "\u{ff}"),
+            ("te", "\u{fe}"),
+            ("upgrade", "\u{e9}"),
+            ("keep-alive", "\u{80}"),
+            ("host", "\u{e9}.example"),
+            ("x-odd", "\u{ff}\u{80}"),
+            ("user-agent", "\u{e9}"),
+        ] {
+            if r.chance(1, 6) {
                 headers.push((k.to_string(), v.to_string()));
             }
         }
@@ -202,7 +250,11 @@ impl Scenario for GrammarSim {
                 let mut b = http::Request::builder().method(case.method.as_str()).uri(case.uri.as_str()).version(version(&case.version));
                 b = b.header("x-req-id", "1").header("x-body-len", case.body_len.to_string());
                 for (k, v) in &case.headers {
-                    b = b.header(k.as_str(), v.as_str());
+                    let bytes: Vec<u8> = v.chars().map(|c| c as u32 as u8).collect();
+                    match http::HeaderValue::from_bytes(&bytes) {
+                        Ok(hv) => b = b.header(k.as_str(), hv),
+                        Err(_) => return (None, true),
+                    }
                 }
                 let req = match b.body(ChunkBody::new(req_body(1, case.body_len), 50, 0)) {
                     Ok(r) => r,
@@ -216,6 +268,11 @@ impl Scenario for GrammarSim {
                             svc.oneshot(req).await
                         }
                         Via::Connector => connector_service(&net, case.tls, None).oneshot(req).await,
+                        Via::PoolBare => bare_pool_service(&net, case.tls).oneshot(req).await,
+                        Via::ConnectorBare => {
+                            let fixed = if case.tls { "https://a.test" } else { "http://a.test" };
+                            bare_connector_service(&net, case.tls, Some(fixed.to_string())).oneshot(req).await
+                        }
                         Via::ConnectorFixed => {
                             let fixed = if case.tls { "https://a.test" } else { "http://a.test" };
                             let mut svc = connector_service(&net, case.tls, Some(fixed.to_string()));
